@@ -390,6 +390,109 @@ def gen_emb_aniso(rng, meth, hard):
             "gen": "emb-%s-flat-aniso-%s" % (meth, "hard" if hard else "mild")}
 
 
+
+# ---- locally rank-deficient neighbourhoods inside otherwise generic flat data (wave 4)
+def nbhd_ranks(X, lists, k):
+    """exact rank of every neighbourhood (number of directions its k neighbours span)"""
+    out = []
+    for l in lists:
+        P = [X[j] for j in l[:k]]
+        out.append(rank([[a - b for a, b in zip(p, P[0])] for p in P[1:]]) if len(P) > 1 else 0)
+    return out
+
+
+def filament_flat(rng, d, k, offset_exp=0, dup=False, hlle=False):
+    """exactly d-flat data (integer intrinsic coordinates X, injective integer map into D >= d dimensions) made of a
+    generic cloud and a LOWER-DIMENSIONAL WHISKER attached to it: a straight filament (d = 2) or a planar patch
+    (d = 3) of more than k samples whose mutual distances are smaller than the distance to the cloud, so that the k
+    nearest neighbours of its outer samples span fewer than d directions (rank-deficient centred local Gram matrix:
+    the local eigensolver returns ARBITRARY null vectors as the missing tangent coordinates).  dup: some whisker
+    samples occur twice (exact duplicates).  offset_exp: a common offset of 2^offset_exp in every ambient
+    coordinate (kernel entries stay exact doubles)."""
+    for _ in range(3000):
+        if d == 2:
+            cloud = [(-abs(p[0]), p[1]) for p in gen_points(rng, rng.randint(9, 13), 2, 12)]
+            a, b = rng.choice([(1, 0), (1, 0), (1, 1), (2, 1), (1, -1)])
+            y0 = rng.randint(-2, 2)
+            gap = rng.randint(2, 4)
+            m = k + rng.randint(1, 3)
+            whisker = [(gap + a * j, y0 + b * j) for j in range(m)]
+        else:
+            cloud = [(-abs(p[0]), p[1], p[2]) for p in gen_points(rng, rng.randint(14, 18), 3, 8)]
+            gap = rng.randint(3, 5)
+            cells = [(gap + u, v, 0) for u in range(4) for v in range(-2, 3)]
+            rng.shuffle(cells)
+            whisker = cells[:k + rng.randint(2, 4)]
+        if dup:
+            whisker = whisker + rng.sample(whisker, rng.randint(1, 2))
+        X = cloud + whisker
+        if len(set(cloud)) != len(cloud) or len(X) <= k + 1:
+            continue
+        order = list(range(len(X)))
+        rng.shuffle(order)
+        X = [X[i] for i in order]
+        D = d + rng.randint(0, 1)
+        A = [[rng.randint(-2, 2) for _ in range(d)] for _ in range(D)]
+        if rank(A) != d:
+            continue
+        off = [rng.choice([1, -1]) * 2 ** offset_exp if offset_exp else 0 for _ in range(D)]
+        pts = [tuple(off[r] + sum(A[r][t] * x[t] for t in range(d)) for r in range(D)) for x in X]
+        K = kernel_table(pts, "linear")
+        if not all(exact_double(Fraction(v)) for r in K for v in r):
+            continue
+        nb = knn_lists(K, k)
+        rk = nbhd_ranks(X, nb, k)
+        if not (min(rk) < d and max(rk) == d and sum(1 for r in rk if r == d) >= len(X) // 3):
+            continue
+        # HLLE: the full-rank neighbourhoods must be generic (no k neighbours on a common quadric: integer lattices
+        # produce them all the time), otherwise the C++ normalises rounding noise there and nothing can be said
+        if hlle and any(r == d and hlle_conditioning([X[j] for j in l[:k]], k, d) < 3e-2 for r, l in zip(rk, nb)):
+            continue
+        return X, K
+    raise RuntimeError("filament_flat: no case found")
+
+
+def gen_rankdef(rng, meth, kind, thorough=False):
+    """WM / EMB cases on flat data with locally rank-deficient neighbourhoods; what C08 states about them: the
+    alignment matrix annihilates constants and the affine functions of the intrinsic coordinates
+    (check_null_space), the embedding minimises the cost and is affine in the coordinates"""
+    d = 3 if (meth == "hlle" and thorough and rng.random() < 0.25) else 2
+    kmin = hlle_ncols(d) if meth == "hlle" else d + 2
+    k = kmin + rng.randint(0, 2)
+    offset_exp = rng.choice([0, 0, 0, 12, 17, 20])
+    X, K = filament_flat(rng, d, k, offset_exp=offset_exp, dup=rng.random() < 0.3, hlle=meth == "hlle")
+    n = len(X)
+    c = {"meth": meth, "n": n, "d": d, "tshift": "0", "kern": K, "flatX": [list(x) for x in X],
+         "shift": rng.choice(["0x1p-10", "0x1p-20", "0x1.12e0be826d695p-30"]) if meth == "ltsa" else "0",
+         "gen": "%s%s-flat-rank-deficient%s" % ("emb-" if kind == "EMB" else "", meth,
+                                                 "-offset" if offset_exp else "")}
+    if offset_exp:
+        c["offset_exp"] = offset_exp
+    if kind == "EMB":
+        c.update({"kind": "EMB", "nm": rng.choice(["brute", "vptree", "covertree"]), "k": k})
+    else:
+        c.update({"kind": "WM", "nbrs": knn_lists(K, k)})
+    return c
+
+
+def gen_wm_offset(rng, meth):
+    """generic (curved) integer data with a large common OFFSET relative to its spread (2^12 .. 2^20 times): the
+    centring of the local Gram matrix is then only accurate to eps * offset^2; the clause that does not depend on
+    that accuracy (HLLE's local estimator is orthogonal to constants by the Gram-Schmidt over ALL columns) must
+    still hold to rounding (check_null_space)"""
+    d = rng.choice([1, 2, 2])
+    k = (hlle_ncols(d) if meth == "hlle" else d + 2) + rng.randint(0, 2)
+    n = k + rng.randint(3, 6)
+    e = rng.choice([12, 17, 20])
+    pts = gen_points(rng, n, d + 1, 5)
+    n = len(pts)
+    pts = [tuple(2 ** e + v for v in p) for p in pts]
+    K = kernel_table(pts, "linear")
+    return {"kind": "WM", "meth": meth, "n": n, "d": d, "tshift": "0", "kern": K, "nbrs": knn_lists(K, min(k, n - 1)),
+            "shift": rng.choice(["0x1p-10", "0x1p-20"]) if meth == "ltsa" else "0", "offset_exp": e,
+            "gen": "%s-curved-offset" % meth}
+
+
 # ---- curved HLLE with d = 2 and an exact model: reflection-symmetric neighbourhoods
 SYM_REPS = [(0, 0), (1, 0), (0, 1), (1, 1), (2, 0), (0, 2), (2, 1), (1, 2), (2, 2)]
 
@@ -774,10 +877,12 @@ def hlle_min_conditioning(c, nbrs, mats):
     if k < hlle_ncols(d):
         return 0.0
     worst = 1.0
+    E = mats.get("Eloc")
+    rks = nbhd_ranks(c["flatX"], nbrs, k) if "flatX" in c and "locV" not in c else None
     for i, l in enumerate(nbrs):
         if "locV" in c:
             V = c["locV"][i]
-        elif "flatX" in c:
+        elif "flatX" in c and (rks[i] >= d or not finite(E)):
             V = [c["flatX"][j] for j in l[:k]]
         else:
             E = mats.get("Eloc")
@@ -852,6 +957,12 @@ def model_feasible(c, nb, quick, stats=None):
     """cost guard for the extracted exact arithmetic (Qc over unary-constructor integers); deterministic
     (depends on the case and on how many heavy cases were already run), so that counts are reproducible"""
     n, d, k = c["n"], c["d"], len(nb[0])
+    if c.get("offset_exp"):
+        # the centred local Gram matrix is only accurate to eps * offset^2: nothing that is compared against the
+        # exact model at the declared tolerances; the case feeds check_null_space and the end-to-end clauses
+        return False
+    if c["meth"] == "hlle" and "flatX" in c and "locV" not in c and min(nbhd_ranks(c["flatX"], nb, k)) < d:
+        return False    # rank-deficient neighbourhood: the property's matrix is not unique (arbitrary null vectors)
     if c["meth"] == "lle":
         return k <= 5 and n <= 12
     if c["meth"] == "ltsa":
@@ -874,16 +985,26 @@ def model_feasible(c, nb, quick, stats=None):
 def local_flat_cond(c, nb, mats, k, d):
     """hypothesis of C08_*_affine_on_flat on a case with intrinsic coordinates: every neighbourhood spans the d-flat
     (exact rank of the integer coordinates: exactly d non-zero local eigenvalues) and the solver separates the d
-    selected eigenvalues from the rounding noise of the k - d vanishing ones.  Returns the worst top / lambda_d
-    or None."""
+    selected eigenvalues from the rounding noise of the k - d vanishing ones.  HLLE also admits neighbourhoods that
+    span only r < d directions (the Gram-Schmidt over all columns keeps 1 and the r genuine tangent coordinates in
+    the local null space whatever the other d - r columns are: C08_hlle_null_any_tangent); then lambda_r is the
+    eigenvalue that has to be resolved.  Returns the worst top / lambda_r or None."""
     lam = mats.get("lamloc")
-    if not finite(lam) or d >= k or not nbhd_rank_ok(c["flatX"], nb, k, d):
+    if not finite(lam) or d >= k:
         return None
+    rks = nbhd_ranks(c["flatX"], nb, k)
+    if max(rks) > d or (min(rks) < d and c["meth"] != "hlle"):
+        return None
+    kern = kern_of(c)
     worst = 1.0
-    for row in lam:
-        top = max(abs(float(x)) for x in row)
-        ld = float(row[k - d])
-        noise = max(abs(float(row[j])) for j in range(k - d))
+    for i, row in enumerate(lam):
+        r = rks[i]
+        if r == 0:
+            continue
+        pre = max(abs(float(kern[a][b])) for a in nb[i][:k] for b in nb[i][:k])
+        top = max(max(abs(float(x)) for x in row), pre if c.get("offset_exp") else 0.0)
+        ld = float(row[k - r])
+        noise = max(abs(float(row[j])) for j in range(k - r))
         if top == 0.0 or ld <= 0.0 or noise * 1024 > ld:
             return None
         worst = max(worst, top / ld)
@@ -898,12 +1019,16 @@ class Stats:
         self.counts = {"wm_compared": 0, "wm_unique": 0, "wm_degenerate": 0, "emb_checked": 0,
                        "emb_centred_checked": 0, "emb_affine_checked": 0, "emb_affine_ill_conditioned": 0,
                        "eig_contract_calls": 0, "global_contract_calls": 0, "global_contract_const_col": 0,
-                       "model_oob_agree": 0, "exceptions": 0, "f7_seen": 0, "hlle_ill_conditioned": 0, "small_k_rejected": 0, "small_k_threw": 0, "small_k_non_affine": 0, "small_k_affine": 0}
+                       "model_oob_agree": 0, "exceptions": 0, "f7_seen": 0, "hlle_ill_conditioned": 0, "small_k_rejected": 0, "small_k_threw": 0, "small_k_non_affine": 0, "small_k_affine": 0,
+                       "null_const_checked": 0, "null_affine_checked": 0, "null_gs_ill_conditioned": 0,
+                       "null_const_ill_conditioned": 0, "null_affine_ill_conditioned": 0,
+                       "rank_deficient_cases": 0, "emb_affine_rank_deficient_checked": 0}
         self.samples = []
         self.heavy = {"heavy_d3": 1, "heavy_d4": 0}   # exact HLLE model runs with 10 / 15 Gram-Schmidt columns
         self.worst_affine = 0.0   # largest affine residual / its tolerance
         self.worst_rel = 0.0      # largest conditioning-aware relative tolerance used on the entrywise stream
         self.worst_ratio = 0.0    # largest |impl - model| / tolerance seen on it (how close to an alarm)
+        self.worst_null = 0.0     # largest |M v - mu v| / tolerance of check_null_space
 
     def bump(self, c):
         self.hist[c.get("gen", "?")] = self.hist.get(c.get("gen", "?"), 0) + 1
@@ -1118,6 +1243,103 @@ def check_global_contract(ctx, mexe, c, res, stats):
                               "constant first column) fails on the call eigendecomposition_impl_dense makes")
 
 
+
+NULL_SAFETY = 256       # margin on the rounding estimates of check_null_space
+
+
+def hlle_oracle_conditioning(nb, mats, k, d):
+    """Gram-Schmidt conditioning (hlle_conditioning) of the columns the C++ actually starts from: 1, the d right-most
+    local eigenvectors the routine's own solver call returned, their pairwise products; smallest over the samples"""
+    E = mats.get("Eloc")
+    if not finite(E) or len(E) != len(nb) * k or k < hlle_ncols(d):
+        return 0.0
+    return min(hlle_conditioning([E[i * k + a][k - d:] for a in range(k)], k, d) for i in range(len(nb)))
+
+
+def check_null_space(ctx, c, nb, mats, M, stats):
+    """What C08 states about the alignment matrix WITHOUT any uniqueness assumption, on the implementation's own
+    matrix:
+      HLLE  M 1 = 0: the Gram-Schmidt loop runs over ALL columns, so the estimator columns are orthogonal to the
+            constant column whatever the local solver returned (C08_hlle_null_any_tangent: no hypothesis on the
+            tangent columns; zero-eigenvalue eigenvectors need not be orthogonal to 1).  Only the conditioning of the
+            Gram-Schmidt step on the columns the C++ starts from enters the tolerance.
+      KLTSA M 1 = shift 1 when every selected local eigenvalue is non-zero (C08_ltsa_tangent_orth_one).
+      both  on exactly flat data M x_t = mu x_t for every intrinsic coordinate x_t (C08_hlle_null_span /
+            C08_ltsa_affine_null): the coordinates restricted to a neighbourhood are combinations of 1 and of the
+            eigenvectors with NON-ZERO eigenvalue, also when the neighbourhood spans fewer than d directions (HLLE)."""
+    meth, n, d = c["meth"], c["n"], c["d"]
+    k = len(nb[0])
+    lam = mats.get("lamloc")
+    if meth not in ("ltsa", "hlle") or not finite(M) or not finite(lam) or len(lam) != n or d >= k:
+        return
+    mu = fr(c["shift"]) if meth == "ltsa" else Fraction(0)
+    kern = kern_of(c)
+    gs = 1.0
+    if meth == "hlle":
+        if k < hlle_ncols(d):
+            return
+        gs = hlle_oracle_conditioning(nb, mats, k, d)
+        if gs < 1e-4:
+            stats.counts["null_gs_ill_conditioned"] += 1
+            return
+    # conditioning of the local eigenproblems: backward error k eps max(|K_loc|, top) against the smallest eigenvalue
+    # that has to be told from zero: lambda_d (KLTSA; HLLE full rank) or lambda_r (HLLE, neighbourhood of rank r < d)
+    rks = nbhd_ranks(c["flatX"], nb, k) if "flatX" in c else None
+    cond_all, cond_nz, deficient = 1.0, 1.0, False
+    for i, row in enumerate(lam):
+        pre = max(abs(float(kern[a][b])) for a in nb[i][:k] for b in nb[i][:k])
+        top = max(max(abs(float(x)) for x in row), pre)
+        ld = float(row[k - d])
+        cond_all = max(cond_all, top / ld) if ld > 0 else float("inf")
+        if rks is not None:
+            r = min(rks[i], d)
+            deficient = deficient or r < d
+            if r > 0:
+                lr = float(row[k - r])
+                noise = max(abs(float(row[j])) for j in range(k - r))
+                cond_nz = max(cond_nz, top / lr) if (lr > 0 and noise * 1024 <= lr) else float("inf")
+    def apply(v):
+        return max(abs(sum(M[i][j] * v[j] for j in range(n)) - mu * v[i]) for i in range(n))
+    # --- constants
+    if meth == "hlle":
+        tol1 = NULL_SAFETY * n * k * EPS / gs
+    else:
+        tol1 = NULL_SAFETY * n * k * EPS * cond_all
+    if tol1 <= 1e-4:
+        r1 = apply([Fraction(1)] * n)
+        stats.counts["null_const_checked"] += 1
+        stats.worst_null = max(stats.worst_null, float(r1) / tol1)
+        if r1 > Fraction(tol1):
+            ctx.violation(slim(c), "assembled %s matrix does not map the constant vector to %s: |M 1 - mu 1| = %.3e > %.1e "
+                                   "(the local estimator / projector is not orthogonal to constants%s)"
+                          % (meth, "shift * 1" if mu else "0", float(r1), tol1,
+                             "; some neighbourhoods span fewer than d directions" if deficient else ""))
+    else:
+        stats.counts["null_const_ill_conditioned"] += 1
+    # --- affine functions of the intrinsic coordinates on flat data
+    if rks is None or (meth == "ltsa" and deficient):
+        return
+    cnd = cond_nz if meth == "hlle" else cond_all
+    tol2 = NULL_SAFETY * n * k * EPS * (cnd + 1.0 / gs)
+    if not tol2 <= 1e-4:
+        stats.counts["null_affine_ill_conditioned"] += 1
+        return
+    X = c["flatX"]
+    r2 = Fraction(0)
+    for t in range(len(X[0])):
+        col = [Fraction(x[t]) for x in X]
+        m = sum(col) / n
+        sc = max(abs(v - m) for v in col) or Fraction(1)
+        r2 = max(r2, apply([(v - m) / sc for v in col]))
+    stats.counts["null_affine_checked"] += 1
+    stats.worst_null = max(stats.worst_null, float(r2) / tol2)
+    if r2 > Fraction(tol2):
+        ctx.violation(slim(c), "samples lie on a %d-flat but the assembled %s matrix does not annihilate the affine "
+                               "functions of the intrinsic coordinates: |M x - mu x| = %.3e > %.1e%s"
+                      % (d, meth, float(r2), tol2,
+                         " (some neighbourhoods span fewer than d directions)" if deficient else ""))
+
+
 def affine_residual(X, ycol):
     """least-squares residual (max abs) of fitting y = a + X b, exact normal equations over Fractions"""
     n, d = len(X), len(X[0])
@@ -1198,6 +1420,13 @@ def evaluate(ctx, exe, mexe, cases, stats):
                 continue
             nb = [[int(x) for x in row] for row in res["mats"]["nbrs"]]
             todo.append((c, res, nb))
+    # ---- null-space clauses on the implementation's own matrix (no uniqueness assumption)
+    for c, res, nb in todo:
+        if c["meth"] in ("ltsa", "hlle"):
+            check_null_space(ctx, c, nb, res["mats"], res["mats"].get("M"), stats)
+            if "flatX" in c and min(nbhd_ranks(c["flatX"], nb, len(nb[0]))) < c["d"]:
+                stats.counts["rank_deficient_cases"] += 1
+                stats.nontrivial.add(case_key(c))
     # ---- model matrices
     lines, idx = [], []
     for t, (c, res, nb) in enumerate(todo):
@@ -1328,6 +1557,8 @@ def evaluate(ctx, exe, mexe, cases, stats):
             stats.counts["emb_affine_ill_conditioned"] += 1
             continue
         stats.counts["emb_affine_checked"] += 1
+        if min(nbhd_ranks(c["flatX"], nb, len(nb[0]))) < d:
+            stats.counts["emb_affine_rank_deficient_checked"] += 1
         worst = Fraction(0)
         for col in range(d):
             r = affine_residual(c["flatX"], [Y[i][col] for i in range(n)])
@@ -1438,6 +1669,12 @@ def build_cases(ctx, rng, budget, thorough):
         if meth != "lle":
             for i in range(g("emb_aniso")):
                 cases.append(gen_emb_aniso(rng, meth, hard=i % 2 == 0))
+    for i in range(g("rankdef_wm")):
+        cases.append(gen_rankdef(rng, "ltsa" if i % 3 == 2 else "hlle", "WM", thorough))
+    for i in range(g("rankdef_emb")):
+        cases.append(gen_rankdef(rng, "ltsa" if i % 3 == 2 else "hlle", "EMB", thorough))
+    for i in range(g("offset_wm")):
+        cases.append(gen_wm_offset(rng, "ltsa" if i % 3 == 2 else "hlle"))
     for _ in range(g("f7")):
         cases.append(gen_emb_f7(rng))
     for _ in range(g("small_k")):
@@ -1447,13 +1684,14 @@ def build_cases(ctx, rng, budget, thorough):
 
 QUICK = {"lle": 22, "lle_scaled": 8, "ltsa": 13, "ltsa_scaled": 3, "ltsa_aniso": 4, "hlle_flat": 9, "hlle_scaled": 2,
          "hlle_aniso": 2, "hlle_curved": 3, "hlle_oracle": 1, "malformed": 4, "emb": 6, "emb_scaled": 2, "emb_aniso": 2,
-         "f7": 1, "small_k": 2}
+         "f7": 1, "small_k": 2, "rankdef_wm": 4, "rankdef_emb": 3, "offset_wm": 3}
 THOROUGH = {"lle": 180, "lle_scaled": 60, "ltsa": 120, "ltsa_scaled": 30, "ltsa_aniso": 30, "hlle_flat": 80,
             "hlle_scaled": 20, "hlle_aniso": 20, "hlle_curved": 24, "hlle_oracle": 12, "malformed": 24, "emb": 44,
-            "emb_scaled": 16, "emb_aniso": 12, "f7": 2, "small_k": 12}
+            "emb_scaled": 16, "emb_aniso": 12, "f7": 2, "small_k": 12, "rankdef_wm": 30, "rankdef_emb": 24,
+            "offset_wm": 18}
 SEARCH = {"lle": 80, "lle_scaled": 40, "ltsa": 50, "ltsa_scaled": 15, "ltsa_aniso": 15, "hlle_flat": 40,
           "hlle_scaled": 10, "hlle_aniso": 10, "hlle_curved": 10, "hlle_oracle": 10, "emb": 28, "emb_scaled": 12,
-          "emb_aniso": 8, "small_k": 4}
+          "emb_aniso": 8, "small_k": 4, "rankdef_wm": 16, "rankdef_emb": 12, "offset_wm": 9}
 
 
 GEN_FILES = (("t_hlle", "HlleLoop.v"), ("t_eig", "EigSelect.v"), ("t_lle_calls", "LleCalls.v"))
@@ -1592,7 +1830,9 @@ def run(ctx):
                               "cond_safety": COND_SAFETY, "max_cond_tol": MAX_COND_TOL,
                               "largest_matrix_rel_used": stats.worst_rel,
                               "largest_entrywise_diff_over_tol": stats.worst_ratio,
-                              "largest_affine_residual_over_tol": stats.worst_affine}})
+                              "largest_affine_residual_over_tol": stats.worst_affine,
+                              "null_safety": NULL_SAFETY,
+                              "largest_null_space_residual_over_tol": stats.worst_null}})
 
 
 def replay(ctx, case):
